@@ -148,4 +148,47 @@ func ledgerFacts(repo string, emit func(name, leanDef string, err error)) {
 		ok := cacheVar != "" && assetsOnCache && infoOnCache && infoPos > 0 && writePos > infoPos
 		emit("slashCommitAfterInfo", fmt.Sprintf("/-- x/operator/keeper/slash.go: Slash runs SlashAssets and UpdateOperatorSlashInfo in one cache context and commits it afterwards -/\ndef slashCommitAfterInfo : Bool := %v", ok), nil)
 	}()
+	// SetUndelegationRecords refuses exactly the records whose completion height lies in the past
+	// (`record.CompleteBlockNumber < currentHeight`): a record due in the current block is storable
+	// (genesis import of a held record re-queued for the first block of the restarted chain)
+	func() {
+		name := "setRecordsRejectsPastOnly"
+		f, fset, err := parseRepoFile(repo, "x/delegation/keeper/un_delegation_state.go")
+		if err != nil {
+			emit(name, "", err)
+			return
+		}
+		fd := findFunc(f, "Keeper.SetUndelegationRecords")
+		if fd == nil {
+			emit(name, "", fmt.Errorf("SetUndelegationRecords not found"))
+			return
+		}
+		conds := []string{}
+		ast.Inspect(fd.Body, func(n ast.Node) bool {
+			ifs, ok := n.(*ast.IfStmt)
+			if !ok {
+				return true
+			}
+			refuses := false
+			for _, st := range ifs.Body.List {
+				if r, ok := st.(*ast.ReturnStmt); ok && len(r.Results) == 1 && exprText(r.Results[0]) != "nil" {
+					refuses = true
+				}
+			}
+			if refuses {
+				conds = append(conds, strings.ReplaceAll(nodeText(fset, ifs.Cond), " ", ""))
+			}
+			return true
+		})
+		ok := len(conds) == 1 && (conds[0] == "record.CompleteBlockNumber<uint64(currentHeight)" || conds[0] == "uint64(currentHeight)>record.CompleteBlockNumber")
+		// currentHeight must be the block height
+		isHeight := false
+		ast.Inspect(fd.Body, func(n ast.Node) bool {
+			if as, ok := n.(*ast.AssignStmt); ok && len(as.Lhs) == 1 && len(as.Rhs) == 1 && exprText(as.Lhs[0]) == "currentHeight" && exprText(as.Rhs[0]) == "ctx.BlockHeight()" {
+				isHeight = true
+			}
+			return true
+		})
+		emit(name, fmt.Sprintf("/-- x/delegation/keeper/un_delegation_state.go: SetUndelegationRecords has exactly one refusing check, `CompleteBlockNumber < ctx.BlockHeight()` (found: %q) -/\ndef setRecordsRejectsPastOnly : Bool := %v", conds, ok && isHeight), nil)
+	}()
 }
